@@ -297,8 +297,96 @@ def rule_type_serde(ck, facts, R="C20.type-serde", ENUM=None, self_suffix="types
     ck.note("%s variants refused by the serializer: %s" % (label, sorted(refused)))
 
 
+def _container(ty):
+    t = ty.replace("std::vec::", "").replace("std::collections::", "").replace("alloc::vec::", "")
+    for k in ("Vec<", "BTreeMap<", "HashMap<", "BTreeSet<", "HashSet<", "VecDeque<", "Box<", "Option<"):
+        if t.startswith(k):
+            return k[:-1]
+    return "scalar"
+
+
+def rule_container_shape(ck, facts):
+    """an aggregate crosses the boundary as the same kind of collection it is on this side"""
+    R = "C20.value"
+    lang = facts.crate(roles.LANG)
+    enc = [f for f in lang.fns if f.short.endswith("Value::to_ffi_value") or (f.short.endswith("::to_ffi_value") and "ffi_serde" in f.path and f.kind == "assoc")]
+    if len(enc) != 1:
+        return
+    ecov, e = result_variants(facts, enc[0], VALUE, FFI)
+    vadt, fadt = facts.adt(VALUE), facts.adt(FFI)
+    if not e or not vadt or not fadt:
+        return
+    vf = {v["n"]: v["f"] for v in vadt["variants"]}
+    ff = {v["n"]: v["f"] for v in fadt["variants"]}
+    n = 0
+    for v, res in sorted(e.items()):
+        for r in res:
+            if r[0] != "ok":
+                continue
+            w = r[1]
+            a, b = vf.get(v, []), ff.get(w, [])
+            if len(a) != 1 or len(b) != 1:
+                continue
+            ca, cb = _container(a[0][1]), _container(b[0][1])
+            if ca not in ("Vec", "VecDeque") :
+                continue
+            n += 1
+            key = "container|%s" % v
+            if cb == ca:
+                ck.ok(R, key, {"value": a[0][1][:60], "ffi": b[0][1][:60]})
+            else:
+                ck.bad(R, key, "Value::%s holds a %s (an ordered sequence, duplicates allowed) but its FFI form FfiValue::%s holds a %s: the order of the elements, and entries with equal keys, are lost on the way — the value that arrives differs from the one that was sent although no error is reported" % (v, ca, w, cb), enc[0].where())
+    ck.floor(R, "sequence_payloads", n, 3)
+
+
+def rule_result_length_gate(ck, facts):
+    """the host side of the plugin bridge accepts every non-empty result buffer"""
+    from ..cfg import DefIndex
+
+    R = "C20.value"
+    lang = facts.crate(roles.LANG)
+    n = 0
+    for f in lang.fns:
+        if "plugin::loader" not in f.path or f.kind == "promoted" or "::test" in f.path:
+            continue
+        raws = [t for _, t in f.calls() if (callee(t) or "").split("::")[-1] in ("from_raw_parts", "from_raw_parts_mut") and len(t[5]) >= 2]
+        if not raws:
+            continue
+        di = DefIndex(f)
+
+        def src_local(op):
+            """the variable an operand is a plain copy of (one step: the length lives in an address-taken local that
+            the callee fills in, so its only visible definition is its initialiser)"""
+            if op[0] not in ("cp", "mv") or op[1][1]:
+                return None
+            d = di.single_def(op[1][0])
+            if d is not None and d[1] is not None and d[2][5][0] == "use" and d[2][5][1][0] in ("cp", "mv") and not d[2][5][1][1][1]:
+                return d[2][5][1][1][0]
+            return op[1][0]
+
+        lens = {src_local(t[5][1]) for t in raws} - {None}
+        for b, st in f.all_stmts():
+            if st[KIND] != "a" or st[5][0] != "bin" or st[5][1] not in ("lt", "le", "gt", "ge", "eq", "ne"):
+                continue
+            ops = st[5][2:4]
+            if not any(src_local(o) in lens for o in ops):
+                continue
+            n += 1
+            cs = [o for o in ops if o[0] == "c"]
+            cr = [di.resolve(o) for o in ops if o[0] in ("cp", "mv")]
+            nonzero = [o for o in cs if len(o) > 3 and str(o[3]) not in ("0",)] + [r for r in cr if r[0] == "call" and (callee(r[1]) or "").split("::")[-1] in ("size_of", "size_of_val", "align_of")]
+            key = "length-gate|%s" % (f.root.split("::", 1)[1] if "::" in f.root else f.root)
+            if nonzero or (st[5][1] not in ("eq", "ne") and not cs):
+                ck.bad(R, key, "%s compares the length of the result buffer a plugin handed back with something other than 0 before decoding it: the shortest valid encodings (a unit value is a 4-byte tag) are turned into an error value on the host although the plugin answered correctly" % f.short, f.where(st))
+            else:
+                ck.ok(R, key)
+    ck.floor(R, "bridge_length_tests", n, 1)
+
+
 def run(ck, facts, tier):
     rule_value_roundtrip(ck, facts)
+    rule_container_shape(ck, facts)
+    rule_result_length_gate(ck, facts)
     rule_type_serde(ck, facts)
     rule_type_serde(ck, facts, R="C20.value-serde", ENUM=VALUE, self_suffix="interpreter::Value", module_mark="interpreter::serde_impl", label="Value", floor=9)
     ck.not_decided("byte-level behaviour of bincode (NaN payload bits, -0.0), and self-describing formats where `rename_all = lowercase` identifiers would not match the capitalised names")
